@@ -16,7 +16,10 @@
    State: res[f] = signature class assigned to field f ("none" = no resolver), memo = what validate() last concluded.
    Actions: Register(f, c) (with override), Validate.  The specification's verdict is a function of the CURRENT state:
    every Validate step records whether validate() must raise.  The same function object may be assigned to several fields
-   (harness: one object per class), which exposes verdict caches keyed too coarsely.                                    *)
+   (harness: one object per class), which exposes verdict caches keyed too coarsely.
+   The machine is bound twice: to a freshly built schema, and to a CLONE of a schema that was validated and queried before - a
+   clone is a machine of its own (Init is its state whatever its source was told) and nothing it is told reaches the source,
+   which must validate after every step.                                                                                *)
 EXTENDS Naturals, Sequences, FiniteSets, TLC, Json
 CONSTANT MaxOps
 Fields == {"strict", "loose", "plain"}
